@@ -15,6 +15,12 @@ and `YaccGrammar::from_str(H + T)` must answer every name/structure/span accesso
 `YaccGrammar::new_with_storaget(kind, B + T)`.  H and B have the same byte length and B is layout for
 the yacc parser, so every item of T sits at the same offsets in the three texts: a difference means
 that a span of one entry point does not select the text that defines the item (concrete input).
+
+The kind expressions include white space after the '(' and before the ')' of `Original(..)` and the argument
+on a line of its own (CTOR_WS_FIXED; /repo fdd053a — the section parser used to reject white space directly
+after the '(' with IllegalName).  A header rejected only because of that white space — the same text without
+it is accepted by the same entry point — is reported as a counterexample of the layout clause with both texts;
+C12 mirrors the section parser (C12_header_ctor_ws_refuted, C12_header_layout_insensitive_ctor).
 """
 import re
 from vlib import core
@@ -30,6 +36,30 @@ KIND_EXPR = {
     "G": ["Grmtools", "YaccKind::Grmtools", "GRMTOOLS", "yacckind :: grmtools"],
     "E": ["Eco", "YaccKind::Eco", "eco"],
 }
+
+# White space between the '(' of the yacckind value and its argument (/repo fdd053a: it used to be an IllegalName error,
+# `yacckind: Original( NoAction)`, although white space is skipped between every other pair of header lexemes):
+#   True  = such spellings are among the kind expressions of every run; a header rejected only because of that white
+#           space (the same header without it is accepted by the same entry point) is a concrete counterexample of C10's
+#           layout clause
+#   False = the spellings are left out
+CTOR_WS_FIXED = True
+KIND_EXPR_CTOR_WS = {
+    "O": ["Original( GenericParseTree)", "Original(\n        YaccOriginalActionKind::GenericParseTree\n    )",
+          "YaccKind::Original(\tYaccOriginalActionKind :: GenericParseTree )"],
+    "N": ["Original( NoAction)", "Original( NoAction )", "Original(\n        YaccOriginalActionKind::NoAction\n    )",
+          "YaccKind::Original(\u2028NoAction\u0085)"],
+    "U": ["Original( UserAction)", "Original(\r\n\tYaccOriginalActionKind::UserAction\r\n)"],
+}
+if CTOR_WS_FIXED:
+    for _k, _v in KIND_EXPR_CTOR_WS.items():
+        KIND_EXPR[_k] = KIND_EXPR[_k] + _v
+
+
+def strip_ctor_ws(h):
+    """the header without the white space directly after a '('"""
+    return re.sub("\\([%s]+" % PWS, "(", h)
+
 
 # {K} = kind expression.  Everything up to the closing '}' is header syntax (white space there = Unicode
 # Pattern_White_Space); what follows the '}' is layout of the YACC parser (blank, tab, CR, LF, comments).
@@ -134,7 +164,15 @@ def run_part(ctx, tag="C10h"):
         lines += ["F " + hexs(h + t), "%s %s" % (k, hexs(b + t)), "%s %s" % (k, hexs(h + t)),
                   "FG " + hexs(h + t), "NG %s %s" % (k, hexs(b + t))]
     out = core.run_lines([exe], lines)
-    n_bad = n_rejected = n_cmp = 0
+    n_bad = n_rejected = n_cmp = n_ctor_ws = 0
+    n_ctor_ws_cases = sum(1 for c in cases if strip_ctor_ws(c[1]) != c[1])
+    # rejected headers with white space after a '(': the same text without that white space, one batch (normally empty)
+    redo = [i for i, c in enumerate(cases) if out[5 * i].startswith("HDRERR") and strip_ctor_ws(c[1]) != c[1]]
+    again = {}
+    if redo:
+        o2 = core.run_lines([exe], [x for i in redo for x in ("F " + hexs(strip_ctor_ws(cases[i][1]) + cases[i][2]),
+                                                              "FG " + hexs(strip_ctor_ws(cases[i][1]) + cases[i][2]))])
+        again = {i: (o2[2 * q], o2[2 * q + 1]) for q, i in enumerate(redo)}
     for i, (k, h, t, lname, origin) in enumerate(cases):
         f, rb, rh, fg, ng = out[5 * i:5 * i + 5]
         src = h + t
@@ -154,6 +192,21 @@ def run_part(ctx, tag="C10h"):
             continue
         if f.startswith("HDRERR"):
             n_rejected += 1
+            h0 = strip_ctor_ws(h)
+            if h0 != h:
+                # metamorphic: the same header without the white space after '(' through the same entry points
+                f0, fg0 = again[i]
+                if not f0.startswith("HDRERR"):
+                    n_ctor_ws += 1
+                    ctx.violation({"what": "the grammar object depends on the layout of the source: ASTWithValidityInfo::from_str / "
+                                           "YaccGrammar::from_str reject the %grmtools header because of white space between the '(' of the "
+                                           "yacckind value and its argument, and accept the same text without that white space",
+                                   "kind": k, "header": h, "header_accepted": h0, "text": t, "src": src, "layout": lname,
+                                   "from_str": f[:400], "grammar_from_str": fg[:300],
+                                   "from_str_without_the_white_space": f0[:300], "grammar_from_str_without_the_white_space": fg0[:300],
+                                   "replay_cmd": "echo '%s' | .work/target/release/c10yp ; echo 'F %s' | .work/target/release/c10yp"
+                                                 % (lines[5 * i], hexs(h0 + t))})
+                    continue
             ctx.violation({"what": "ASTWithValidityInfo::from_str rejects a %grmtools header of a layout this check takes to be valid: "
                                    "the from_str/new correspondence is not evaluated", "kind": k, "header": h, "src": src,
                            "from_str": f[:400], "replay_cmd": replay}, no_input=True)
@@ -180,10 +233,15 @@ def run_part(ctx, tag="C10h"):
     ctx.oblige(n_bad == 0 and n_rejected == 0, "from_str(H+T) = new(kind, blanks+T) = new(kind, H+T), AST and grammar level")
     ctx.coverage["header_cases"] = len(cases)
     ctx.coverage["header_cases_compared"] = n_cmp
+    ctx.coverage["header_cases_with_white_space_after_the_opening_parenthesis"] = n_ctor_ws_cases
+    if CTOR_WS_FIXED:
+        ctx.oblige(n_ctor_ws_cases > 0 and n_ctor_ws == 0,
+                   "headers with white space between '(' and the yacckind argument (%d cases) are read like the ones without" % n_ctor_ws_cases)
     ctx.coverage["header_rule"] = (
         "%d texts (printed abstract grammars under 2 random layouts each, kinds O/N/U/G/E; mutated/truncated ones; the parser corpus "
         "under every header layout) x %d header layouts (plain, blanks, multi-line, CRLF, extra entries with multi-byte strings/arrays/"
-        "flags, yacckind last, Pattern_White_Space characters, KELVIN SIGN key, trailing comments, long) x kind spellings: "
+        "flags, yacckind last, Pattern_White_Space characters, KELVIN SIGN key, trailing comments, long) x kind spellings "
+        "(namespaces, case, blanks around `::`, before `(`, after `(` and before `)`, the argument on a line of its own): "
         "from_str(H+T) vs new(kind, blanks+T) vs new(kind, H+T) whole AST transcript incl. every span/error/warning, and "
         "YaccGrammar::from_str vs new_with_storaget accessor transcript" % (len(texts), len(LAYOUTS)))
     ctx.assumptions += [
